@@ -186,8 +186,13 @@ func C01(c *core.Ctx) {
 	}
 	// R4: who may delete from the sets, and only after a successful driver remove
 	emission := map[string]bool{}
-	for _, n := range []string{"handleSessionModificationRequest", "handleSessionDeletionRequest"} {
-		emission[n] = true
+	for _, e := range emissionSites {
+		if e.fn == "serveUSAReport" {
+			continue
+		}
+		if f, _ := emissionFn(p, e.fn, e.ies); f != nil {
+			emission[f.Name()] = true
+		}
 	}
 	for _, fn := range p.OwnFuncs() {
 		core.Instrs(fn, func(in ssa.Instruction) {
@@ -566,12 +571,10 @@ func c01EndPaths(c *core.Ctx, rule string, withR7 bool) {
 		// and it happens under SEID == 0
 		for _, ci := range core.Calls(fn, rDel) {
 			under := false
-			for _, f := range core.FactsAt(ci.(ssa.Instruction).Block()) {
-				if cmp, ok := f.V.(*ssa.BinOp); ok && cmp.Op == token.EQL && f.True {
-					if k, ok := core.ConstInt(cmp.Y); ok && k == 0 {
-						if _, fld, ok := core.LoadedField(cmp.X); ok && fld.Name() == "SEID" {
-							under = true
-						}
+			for _, eq := range eqFacts(ci.(ssa.Instruction).Block()) {
+				if k, ok := core.ConstInt(eq[1]); ok && k == 0 {
+					if _, fld, ok := core.LoadedField(eq[0]); ok && fld.Name() == "SEID" {
+						under = true
 					}
 				}
 			}
@@ -725,11 +728,8 @@ func C05(c *core.Ctx) {
 			}
 			nRet++
 			usesSeid, usesAddr := false, false
-			for _, f := range core.FactsAt(r.Block()) {
-				cmp, ok := f.V.(*ssa.BinOp)
-				if !ok || cmp.Op != token.EQL || !f.True {
-					continue
-				}
+			for _, eq := range eqFacts(r.Block()) {
+				cmp := struct{ X, Y ssa.Value }{eq[0], eq[1]}
 				for _, side := range []ssa.Value{cmp.X, cmp.Y} {
 					if side == ssa.Value(rSeid) {
 						// the other side must be the candidate's RemoteID
